@@ -262,6 +262,19 @@ func (ci *ChunkInfo) getCidSort(rootCid, cid boson.Address) int {
 	return pyramid.cids[cid.String()].sort
 }
 
+// isDataChunk reports whether cid is one of the data chunks of rootCid, i.e.
+// whether it has a position of its own in the file's availability vector.
+func (ci *ChunkInfo) isDataChunk(rootCid, cid boson.Address) bool {
+	ci.cp.RLock()
+	defer ci.cp.RUnlock()
+	pyramid, err := ci.getPyramid(rootCid)
+	if err != nil {
+		return false
+	}
+	_, ok := pyramid.cids[cid.String()]
+	return ok
+}
+
 // func (cp *chunkPyramid) updateCidSort(rootCid, cid boson.Address, sort int) {
 //
 //	v, ok := cp.pyramid[rootCid.String()][cid.String()]
